@@ -88,6 +88,37 @@ def one_case(run, specs, pts, q, kinds=(), transform=None):
     return ok and ok2
 
 
+def many_charges_case(run, l=3, nprim=6, ncharge=220):
+    """many point charges in one call for large shells (two f shells with six primitives, 220 charges: more than 2^24 numbers in
+    the recursion work array) must give, charge by charge, what single-charge calls give; sampled charges also against the model"""
+    from gbasis.integrals.point_charge import point_charge_integral
+    rng = run.rng
+    cs = []
+    specs = [rand_shell(rng, l, cs, nprim=nprim, nseg=1, sph=False, exp_hi=8.0).copy(via_update=False) for _ in range(2)]
+    specs[1] = specs[1].copy(center=[c + d for c, d in zip(specs[0].center, (0.9, -0.4, 0.6))])
+    basis = make_basis(specs)
+    pts = np.array([[core.snap(rng.uniform(-4, 4), 10) for _ in range(3)] for _ in range(ncharge)])
+    q = np.array([core.snap(rng.uniform(0.5, 2.0), 8) for _ in range(ncharge)])
+    whole = point_charge_integral(basis, pts, q)
+    run.case(("many-charges", l, nprim, ncharge) + sig(specs))
+    run.count("many point charges in one call (%d)" % ncharge)
+    rep = {"case": "many-charges", "basis": core.describe_basis(specs), "signature": {"kind": "point-charge-many"}}
+    nb = sum(s_.size for s_ in specs)
+    if whole.shape != (nb, nb, ncharge):
+        run.violation(f"point_charge_integral returned shape {whole.shape} for {ncharge} charges", rep)
+        return False
+    picks = [0, 1, ncharge // 2, ncharge - 1] + rng.sample(range(ncharge), 4)
+    for i in picks:
+        single = point_charge_integral(basis, pts[i:i + 1], q[i:i + 1])[:, :, 0]
+        d = np.sqrt(np.abs(np.diag(single)))
+        tol = 1e-11 * np.outer(d, d) + 1e-300
+        if np.any(np.abs(whole[:, :, i] - single) > tol):
+            run.violation(f"slice {i} of a {ncharge}-charge request differs from the result for that charge alone by "
+                          f"{np.abs(whole[:, :, i] - single).max():.3e} (diagonal scale {d.max() ** 2:.3e})", dict(rep, position=i))
+            return False
+    return one_case(run, specs, pts[picks[:2]], q[picks[:2]], ("many", "many"))
+
+
 def representation_cases(run):
     from gbasis.integrals.nuclear_electron_attraction import nuclear_electron_attraction_integral
     from gbasis.integrals.point_charge import point_charge_integral
@@ -158,8 +189,16 @@ def check(run):
     from checks.common import structural_families
     for lab, sp_, T in structural_families(run):
         pts, q, kinds = place_charges(rng, sp_, 2)
+        if lab.startswith("symmetric"):
+            # charges at the symmetric sites: on the central atom (= the exact midpoint of the outer ones in the linear case) and at
+            # the exact midpoint of the first two outer atoms
+            mid = [(a + b) / 2 for a, b in zip(sp_[1].center, sp_[2].center)]
+            pts = np.vstack([pts, [sp_[0].center, mid]])
+            q = np.concatenate([q, [1.0, -2.0]])
+            kinds = list(kinds) + ["centre", "midpoint"]
         one_case(run, sp_, pts, q, kinds, T)
         run.count(lab)
+    many_charges_case(run)
     from checks.common import custom_order_family
     for k in range(2 if run.tier == "quick" else 8):
         sp_ = custom_order_family(rng, (2, 1) if k % 2 else (1, 3))
